@@ -103,7 +103,12 @@ class one3d(PseudoNetCDFFile):
         time_date = array(self.__memmap.reshape(
             self.__records, self.__record_items)[:, 1:3])
 
-        lays = where(time_date != time_date[newaxis, 0])[0][0]
+        newtimes = where(time_date != time_date[newaxis, 0])[0]
+        if newtimes.size > 0:
+            lays = newtimes[0]
+        else:
+            # a single time step: every record carries the first time
+            lays = self.__records
 
         new_hour = slice(0, None, lays)
 
